@@ -1101,6 +1101,43 @@ def _put_one_exprlike_optional(
     return put_fst
 
 
+def _put_one_arguments_vararg_kwarg(
+    self: fst.FST,
+    code: _PutOneCode,
+    idx: int | None,
+    field: str,
+    child: AST,
+    static: onestatic,
+    options: Mapping[str, Any],
+) -> fst.FST | None:
+    """Put new, replace or delete `arguments.vararg` or `arguments.kwarg` as a normal optional node. The exception is a
+    delete where the source which would be removed along with the node has comments, the plain removal of that span
+    would lose them no matter the `trivia` option so in this case delete as a one element slice of `_all`, which handles
+    the comments according to `trivia` (and also deals with the `/` and `*` markers)."""
+
+    child, idx = _validate_put(self, code, idx, field, child, can_del=True)
+
+    if code is None and child:
+        ln, col, end_ln, end_col = static.getinfo(self, static, idx, field).loc_insdel
+        child_ln, child_col, child_end_ln, child_end_col = child.f.loc
+
+        if (
+            '#' in self._get_src(ln, col, child_ln, child_col)  # outside of the node itself there can only be separators, markers and whitespace so if there is a '#' then it starts a comment
+            or '#' in self._get_src(child_end_ln, child_end_col, end_ln, end_col)
+        ):
+            ast = self.a
+            idx = len(ast.posonlyargs) + len(ast.args)
+
+            if field == 'kwarg':
+                idx += bool(ast.vararg) + len(ast.kwonlyargs)
+
+            self._put_slice(None, idx, idx + 1, '_all', False, options)
+
+            return None
+
+    return _put_one_exprlike_optional(self, code, idx, field, child, static, options, 1)
+
+
 def _put_one_FunctionDef_arguments(
     self: fst.FST,
     code: _PutOneCode,
@@ -2975,10 +3012,10 @@ _PUT_ONE_HANDLERS = {
     (arguments, 'posonlyargs'):           (False, _put_one_arg, _onestatic_arg_required),  # arg*
     (arguments, 'args'):                  (False, _put_one_arg, _onestatic_arg_required),  # arg*
     (arguments, 'defaults'):              (False, _put_one_exprlike_required, _onestatic_expr_required),  # expr*
-    (arguments, 'vararg'):                (False, _put_one_exprlike_optional, onestatic(_one_info_arguments_vararg, _restrict_default, code_as=code_as_arg)),  # arg?
+    (arguments, 'vararg'):                (False, _put_one_arguments_vararg_kwarg, onestatic(_one_info_arguments_vararg, _restrict_default, code_as=code_as_arg)),  # arg?
     (arguments, 'kwonlyargs'):            (False, _put_one_arg, _onestatic_arg_required),  # arg*
     (arguments, 'kw_defaults'):           (False, _put_one_exprlike_optional, onestatic(_one_info_arguments_kw_defaults, _restrict_default)),  # expr*
-    (arguments, 'kwarg'):                 (False, _put_one_exprlike_optional, onestatic(_one_info_arguments_kwarg, _restrict_default, code_as=code_as_arg)),  # arg?
+    (arguments, 'kwarg'):                 (False, _put_one_arguments_vararg_kwarg, onestatic(_one_info_arguments_kwarg, _restrict_default, code_as=code_as_arg)),  # arg?
     (arguments, '_all'):                  (True, False, False),  # arguments
     (arg, 'arg'):                         (False, _put_one_identifier_required, _onestatic_identifier_required),  # identifier
     (arg, 'annotation'):                  (False, _put_one_arg_annotation, onestatic(_one_info_arg_annotation, _restrict_default)),  # expr?  - exclude [Lambda, Yield, YieldFrom, Await, NamedExpr]?
